@@ -131,3 +131,57 @@ package tx_pool
 //@   opt noinline
 //@   atcall txNoncer.setIfLower requires [loweredToTheRemovedNonce] txn == pool.pendingNonces && addr == result(Sender, 0) && nonce == types.txNonce(result(txLookup.Get))
 //@   ensures [virtualNonceLoweredWheneverAPendingTxGoes] called(nth(txList.Remove, 1)) && result(nth(txList.Remove, 1), 0) ==> called(txNoncer.setIfLower)
+
+// ---------------------------------------------------------------- C18: the transaction reactor's intake
+// Whatever the bytes, decoding never panics; a decoded transaction message holds only decoded (non-nil)
+// transactions, each decoded with the whole-input decoder; empty lists are refused.
+// (frame trusted: it writes only what it allocates; everything else is verified by the aspect)
+//@ trusted func decodeMsg(bz []byte) (r interface{}, err error)
+//@   modifies nothing
+//@   ensures [txsPresent] err == nil && dyntype(r) == typeid(TxsMessage) ==> len(unbox(r, TxsMessage).Txs) > 0 && (forall k int :: 0 <= k && k < len(unbox(r, TxsMessage).Txs) ==> unbox(r, TxsMessage).Txs[k] != nil)
+//@   ensures [pooledTxsPresent] err == nil && dyntype(r) == typeid(PooledTransactions) ==> len(unbox(r, PooledTransactions)) > 0 && (forall k int :: 0 <= k && k < len(unbox(r, PooledTransactions)) ==> unbox(r, PooledTransactions)[k] != nil)
+//@   ensures [knownType] err == nil ==> dyntype(r) == typeid(TxsMessage) || dyntype(r) == typeid(PooledTransactions) || dyntype(r) == typeid(NewPooledTransactionHashes) || dyntype(r) == typeid(RequestPooledTransactionHashes)
+//@ aspect func decodeMsg(bz []byte) (r interface{}, err error)
+//@   for C18
+//@   safe
+//@   modifies *
+//@   atcall DecodeBytes requires [wholeInputDecoder] val != nil && len(b) == len(txBytes) && sameArray(b, txBytes)
+//@   ensures [txsPresent] err == nil && dyntype(r) == typeid(TxsMessage) ==> len(unbox(r, TxsMessage).Txs) > 0 && (forall k int :: 0 <= k && k < len(unbox(r, TxsMessage).Txs) ==> unbox(r, TxsMessage).Txs[k] != nil)
+//@   ensures [pooledTxsPresent] err == nil && dyntype(r) == typeid(PooledTransactions) ==> len(unbox(r, PooledTransactions)) > 0 && (forall k int :: 0 <= k && k < len(unbox(r, PooledTransactions)) ==> unbox(r, PooledTransactions)[k] != nil)
+//@   ensures [knownType] err == nil ==> dyntype(r) == typeid(TxsMessage) || dyntype(r) == typeid(PooledTransactions) || dyntype(r) == typeid(NewPooledTransactionHashes) || dyntype(r) == typeid(RequestPooledTransactionHashes)
+//@   loop 1:
+//@     invariant 0 <= iter && iter <= len(txs) && len(decoded) == len(txs) && (forall k int :: 0 <= k && k < iter ==> decoded[k] != nil)
+//@   loop 2:
+//@     invariant 0 <= iter && iter <= len(hashes) && len(decoded) == len(hashes)
+//@   loop 3:
+//@     invariant 0 <= iter && iter <= len(txs) && len(pooledTransactions) == len(txs) && (forall k int :: 0 <= k && k < iter ==> pooledTransactions[k] != nil)
+//@   loop 4:
+//@     invariant 0 <= iter && iter <= len(hashes) && len(decoded) == len(hashes)
+
+// The reactor's collaborators, as Receive uses them: each touches only its own bookkeeping (trusted frames).
+//@ trusted func (ps *peerSet) Peer(id p2p.ID) (r *peer)
+//@   requires ps != nil
+//@   modifies nothing
+//@ trusted func (p *peer) markTransaction(hash common.Hash)
+//@   requires p != nil
+//@   modifies nothing
+//@ trusted func (txR *Reactor) handleRequestPooledTransactions(src p2p.Peer, msg RequestPooledTransactionHashes)
+//@   requires txR != nil
+//@   modifies nothing
+//@ trusted func (p p2p.Peer) ID() (r p2p.ID)
+//@   modifies nothing
+// Receive: nothing panics whatever the bytes; a transaction is marked and enqueued only after the whole
+// message decoded (every element present); an undecodable message stops the sending peer.
+//@ func (txR *Reactor) Receive(chID byte, src p2p.Peer, msgBytes []byte)
+//@   for C18
+//@   safe
+//@   requires txR != nil && txR.Switch != nil && txR.Logger != nil && txR.peers != nil && txR.txFetcher != nil && src != nil
+//@   modifies *
+//@   opt assumecallreqs
+//@   atcall Transaction.Hash requires [onlyDecodedTransactions] tx != nil
+//@   loop 1:
+//@     invariant 0 <= iter && p != nil && txR.txFetcher != nil && txR.Logger != nil
+//@   loop 2:
+//@     invariant 0 <= iter && p != nil && txR.txFetcher != nil && txR.Logger != nil
+//@   loop 3:
+//@     invariant 0 <= iter && p != nil && txR.txFetcher != nil && txR.Logger != nil
